@@ -6,6 +6,7 @@ import (
 	"github.com/orda-io/orda/client/pkg/errors"
 	"github.com/orda-io/orda/client/pkg/iface"
 	"github.com/orda-io/orda/client/pkg/model"
+	"github.com/orda-io/orda/client/pkg/simhook"
 	"strings"
 
 	"golang.org/x/sync/semaphore"
@@ -173,6 +174,7 @@ func (its *DatatypeManager) syncPushPullPacks(pppList ...*model.PushPullPack) er
 		return err
 	}
 	for _, ppp := range pushPullResponse.PushPullPacks {
+		simhook.Yield("manager.response")
 		if data, ok := its.dataMap[ppp.GetKey()]; ok {
 			data.ApplyPushPullPack(ppp)
 		}
